@@ -17,6 +17,12 @@ SCHEMAS = ["schema_2_18_0", "schema_2_20_1", "schema_2_20_2", "schema_2_20_3",
 MODE = "#mode cratesv2"
 
 
+def translate_ddl():
+    """Regenerate lean/EngineModel/Gen/V2CrateDdl.lean (see tools/tr_v2ddl.py)."""
+    import tr_v2ddl
+    return tr_v2ddl.main()
+
+
 def hx(s):
     b = s if isinstance(s, bytes) else s.encode()
     return b.hex() if b else "-"
